@@ -395,6 +395,10 @@ func cmdCheck(args []string) int {
 			}
 			if ts, ok := ck.TimeoutS[*tier]; ok {
 				cfg.Timeout = time.Duration(ts) * time.Second
+			} else if *tier == "thorough" {
+				cfg.Timeout = 40 * time.Minute // default per-harness budget: a harness that exceeds it is reported truncated (INCONCLUSIVE), never left running
+			} else {
+				cfg.Timeout = 15 * time.Minute
 			}
 			if p, ok := ck.Preemptions[*tier]; ok {
 				cfg.Preemptions = p
